@@ -32,11 +32,14 @@ def Kind.all : List Kind :=
   [.integer, .real, .number, .string, .binary, .boolean, .logical, .enum, .entity, .select, .aggregate]
 def Kind.ofName (s : String) : Option Kind := Kind.all.find? (fun k => k.cname == s)
 
-/-- an explicit attribute as the reader sees it: base type, `Nullable()`, `IsDerived()` -/
+/-- an explicit attribute as the reader sees it: `NonRefType()` (the underlying type behind any chain of defined types),
+    `Nullable()`, `IsDerived()`, and whether `Type()` is REFERENCE_TYPE (the attribute's type is a defined type declared on
+    another defined type, or a renamed select) -/
 structure AttrD where
   kind : Kind
   optional : Bool
   derived : Bool := false
+  typeRef : Bool := false
   deriving DecidableEq, Repr, Inhabited
 
 /-- what stands at an attribute position in the file -/
@@ -145,6 +148,11 @@ def runFiller (reader filler arg : String) : Option String × Sev :=
 def fillerFor (k : Kind) : Option (String × String × String) :=
   (fillerCases.find? (fun c => c.1 == k.cname)).map (fun c => c.2)
 
+/-- the type class the filler switch sees: the underlying kind when it dispatches on `NonRefType()` (or `BaseType()`),
+    nothing it has a case for when it dispatches on `Type()` and that is REFERENCE_TYPE -/
+def fillerKey (a : AttrD) : Option Kind :=
+  if fillerDispatch = "Type" && a.typeRef then none else some a.kind
+
 /-- `STEPattribute::STEPread`: (severity left in the attribute's error, value stored) -/
 def attrRead (strict : Bool) (a : AttrD) (t : Tok) : Sev × Val :=
   if a.derived then
@@ -158,7 +166,7 @@ def attrRead (strict : Bool) (a : AttrD) (t : Tok) : Sev × Val :=
       -- its delimiter, for which CheckRemainingInput finds nothing
       if a.optional then ((match sevNullableOverride with | some s => s | none => Sev.null), .null)
       else if !strict && (match lenientOnlyFor with | none => true | some c => dollar && c = consumedNullChar) then
-        match fillerFor a.kind with
+        match (fillerKey a).bind fillerFor with
         | none => (sevLenientOtherKind, .null)
         | some (filler, reader, arg) =>
           let (v, e) := runFiller reader filler arg
